@@ -119,6 +119,53 @@ func NewBoundary() *Universe {
 		u.Shapes = append(u.Shapes, top)
 	}
 
+	// strings: UTF-8 boundary runes (alone, repeated, embedded in ASCII) and the invalid neighbours
+	{
+		must := func(err error) {
+			if err != nil {
+				panic(err)
+			}
+		}
+		must(u.API.RegisterTypeSettings("", serix.TypeSettings{}.WithLengthPrefixType(serix.LengthPrefixTypeAsUint16)))
+		u.reg[goTypes[String]] = &regEntry{lp: 2}
+		plain := &Shape{Kind: String, T: goTypes[String], LP: 2} // registered setting of `string`
+		field := wrap(&Shape{Kind: String, T: goTypes[String], LP: 1, TagLP: true})
+		mp := &Shape{Kind: Map, LP: 1, TagLP: true, Key: plain, Elem: plain}
+		mp.T = reflect.MapOf(plain.T, plain.T)
+		mapTop := wrap(mp)
+		sl := &Shape{Kind: Slice, T: reflect.SliceOf(plain.T), LP: 1, TagLP: true, Elem: plain}
+		sliceTop := wrap(sl)
+		opt := &Shape{Kind: String, T: goTypes[String], LP: 1, Top: &TopSettings{LP: 1}}
+		bounded := wrap(&Shape{Kind: String, T: goTypes[String], LP: 1, TagLP: true, TagMM: true, R: Rules{Min: 4, Max: 6}})
+		str := func(b string) *Val { return &Val{S: []byte(b)} }
+		each := func(label, b string) {
+			addVals(field, label+"/field", str(b))
+			addVals(mapTop, label+"/map-key", &Val{L: []*Val{str(b), str("v")}})
+			addVals(mapTop, label+"/map-value", &Val{L: []*Val{str("k"), str(b)}})
+			addVals(sliceTop, label+"/slice", &Val{L: []*Val{str("x"), str(b)}})
+			addVals(opt, label+"/top-option", str(b))
+		}
+		for _, r := range []rune{0, 0x7f, 0x80, 0x7ff, 0x800, 0xd7ff, 0xe000, 0xfffd, 0xfffe, 0xffff, 0x10000, 0x10ffff} {
+			c := string(r)
+			each(fmt.Sprintf("utf8/valid/U+%04X/alone", r), c)
+			each(fmt.Sprintf("utf8/valid/U+%04X/repeated", r), c+c+c)
+			each(fmt.Sprintf("utf8/valid/U+%04X/embedded", r), "a"+c+"b")
+		}
+		for _, bad := range []struct{ l, b string }{
+			{"lone-continuation", "\x80"}, {"truncated-2", "\xc3"}, {"truncated-3", "\xe2\x82"}, {"truncated-4", "\xf0\x9f\x98"},
+			{"overlong-C080", "\xc0\x80"}, {"overlong-E08080", "\xe0\x80\x80"}, {"surrogate-EDA080", "\xed\xa0\x80"},
+			{"beyond-10FFFF", "\xf4\x90\x80\x80"}, {"byte-FF", "\xff"},
+		} {
+			each("utf8/invalid/"+bad.l+"/alone", bad.b)
+			each("utf8/invalid/"+bad.l+"/embedded", "a"+bad.b+"b")
+		}
+		// byte length vs. rune count on different sides of min 4 / max 6 (bounds count bytes)
+		for _, bv := range []string{"€€", "abcdé", "ééé", "€a", "€", "abc", "abcd", "abcdef", "abcdefg", "€€a", "éééé", "𝄞", "𝄞𝄞", "\xef\xbf\xbd\xef\xbf\xbd"} {
+			addVals(bounded, fmt.Sprintf("utf8/bounds-4..6/%dbytes-%drunes", len(bv), utf8.RuneCountInString(bv)), str(bv))
+		}
+		u.Shapes = append(u.Shapes, field, mapTop, sliceTop, opt, bounded)
+	}
+
 	// uint256 positions
 	two256 := new(big.Int).Lsh(big.NewInt(1), 256)
 	bigs := map[string]*big.Int{
@@ -278,4 +325,55 @@ func walkValid(s *Shape, v *Val, strict bool) bool {
 		return v.Big != nil && v.Big.Sign() >= 0 && v.Big.BitLen() <= 256
 	}
 	return true
+}
+
+// HasInvalidUTF8 reports whether a string node of v is not valid UTF-8 (oracle: unicode/utf8).
+func HasInvalidUTF8(s *Shape, v *Val) bool {
+	return anyLeaf(s, v, func(s *Shape, v *Val) bool { return s.Kind == String && !utf8.Valid(v.S) })
+}
+
+// StringBoundsViolated reports whether a string / byte-slice node of v has a byte length outside
+// its min/max bounds (bounds count bytes, not runes). String bounds are checked under validation
+// only, byte-slice bounds always.
+func StringBoundsViolated(s *Shape, v *Val, validation bool) bool {
+	return anyLeaf(s, v, func(s *Shape, v *Val) bool {
+		if !(s.Kind == Bytes || (s.Kind == String && validation)) {
+			return false
+		}
+		n := uint(len(v.S))
+		return (s.R.Min != 0 && n < s.R.Min) || (s.R.Max != 0 && n > s.R.Max)
+	})
+}
+
+func anyLeaf(s *Shape, v *Val, f func(*Shape, *Val) bool) bool {
+	if v.Nil {
+		return false
+	}
+	switch s.Kind {
+	case Array, Slice:
+		for _, e := range v.L {
+			if anyLeaf(s.Elem, e, f) {
+				return true
+			}
+		}
+	case Map:
+		for i := 0; i+1 < len(v.L); i += 2 {
+			if anyLeaf(s.Key, v.L[i], f) || anyLeaf(s.Elem, v.L[i+1], f) {
+				return true
+			}
+		}
+	case Struct:
+		for i, fl := range s.Fields {
+			if anyLeaf(fl.S, v.L[i], f) {
+				return true
+			}
+		}
+	case Ptr:
+		return len(v.L) == 1 && anyLeaf(s.Elem, v.L[0], f)
+	case Iface:
+		return v.Impl >= 0 && len(v.L) == 1 && anyLeaf((*s.Impls)[v.Impl], v.L[0], f)
+	default:
+		return f(s, v)
+	}
+	return false
 }
